@@ -178,7 +178,75 @@ def probe_user_velocities(inp: Dict[str, Any]) -> Dict[str, Any]:
             "fields": {"kinds": sorted(kinds), "mode": inp.get("mode", "generic")}}
 
 
-PROBES = {"initial": probe_initial, "seeding": probe_seeding, "user_velocities": probe_user_velocities}
+def probe_sh_start(inp: Dict[str, Any]) -> Dict[str, Any]:
+    """surface-hopping engine (real excited-state engine): the velocities the first integrator step starts from are the drawn ones (exactly the
+    requested temperature, zero net momentum) or, if supplied, the user's"""
+    import torch
+
+    import seqm.MolecularDynamics as MD
+    import seqm.NonadiabaticDynamics as ND
+    from seqm.Molecule import Molecule
+    from seqm.seqm_functions.constants import Constants
+
+    def work(_):
+        s, x, ch, mu = esh.batch(inp["names"])
+        sp = {"method": "AM1", "scf_eps": 1e-8, "scf_converger": [1], "excited_states": {"n_states": 2, "method": "cis"}}
+        out = {"molid": [0], "prefix": "/nonexistent/x", "print every": 0, "checkpoint every": 0, "xyz": 0, "h5": {}}
+        mol = Molecule(Constants(), sp, torch.as_tensor(x), torch.as_tensor(s))
+        kw = {} if inp.get("damp") is None else {"damp": inp["damp"]}
+        dyn = ND.SurfaceHoppingDynamics(seqm_parameters=sp, timestep=0.5, Temp=inp["temp"], output=out, initial_state=1, **kw)
+        V = None
+        if inp.get("user"):
+            rng = np.random.default_rng(inp.get("seed", 0))
+            V = rng.normal(size=x.shape) * 0.01 * (s > 0)[..., None]
+            mass = mol.mass.numpy()
+            V = V - (mass * V).sum(1, keepdims=True) / mass.sum(1, keepdims=True) * (s > 0)[..., None]
+            # also free of rigid rotation about the centre of mass (the package strips translation and rotation from preset velocities: known finding F12)
+            for m_ in range(V.shape[0]):
+                w_ = mass[m_][:, 0]
+                rc = x[m_] - (w_[:, None] * x[m_]).sum(0) / w_.sum()
+                L = (w_[:, None] * np.cross(rc, V[m_])).sum(0)
+                I = np.einsum("a,aij->ij", w_, np.einsum("ak,ak,ij->aij", rc, rc, np.eye(3)) - np.einsum("ai,aj->aij", rc, rc))
+                om = np.linalg.lstsq(I, L, rcond=None)[0]
+                V[m_] = (V[m_] - np.cross(om, rc)) * (s[m_] > 0)[:, None]
+            mol.velocities = torch.as_tensor(V.copy())
+        seen = {}
+
+        class Stop(Exception):
+            pass
+        orig = dyn._do_integrator_step
+
+        def w(i, molecule, *a, **k):
+            seen["v"] = molecule.velocities.detach().numpy().copy()
+            seen["dof"] = dyn.n_dof.detach().numpy().copy() if torch.is_tensor(dyn.n_dof) else np.asarray(dyn.n_dof)
+            raise Stop()
+        dyn._do_integrator_step = w
+        with contextlib.redirect_stdout(io.StringIO()):
+            try:
+                dyn.run(mol, steps=1, reuse_P=True, remove_com=None, seed=inp.get("seed", 0))
+            except Stop:
+                pass
+        return {"v": seen["v"], "dof": seen["dof"], "V": V, "mass": mol.mass.numpy()[..., 0], "species": s}
+    r = mdh.call_with_timeout(work, None, 600)
+    C = __import__("seqm.MolecularDynamics", fromlist=["CONSTANTS"]).CONSTANTS
+    bad, kinds = [], set()
+    v, mass = r["v"], r["mass"]
+    if r["V"] is not None:
+        d = float(np.abs(v - r["V"]).max())
+        if d > 1e-12:
+            bad.append(f"user-supplied (translation- and rotation-free) velocities changed by {d:.3e} A/fs before the first step of the surface-hopping engine"); kinds.add("sh_user_velocities")
+    else:
+        Ek = (0.5 * mass[..., None] * v ** 2).sum((1, 2)) * C.KINETIC_ENERGY_SCALE
+        T = Ek * C.TEMPERATURE_SCALE / (0.5 * np.asarray(r["dof"], dtype=float).reshape(-1))
+        if np.abs(T - inp["temp"]).max() > 1e-9 * max(1.0, inp["temp"]):
+            bad.append(f"first step of the surface-hopping engine starts at T = {T.tolist()} K instead of {inp['temp']} K"); kinds.add("sh_temperature")
+        P = (mass[..., None] * v).sum(1)
+        if np.abs(P).max() > 1e-12 * (np.abs(mass[..., None] * v).max() + 1e-30) * v.shape[1]:
+            bad.append(f"net linear momentum {np.abs(P).max():.2e} at the first step"); kinds.add("sh_momentum")
+    return {"ok": not bad, "observed": bad, "expected": "first step starts from the drawn (exact T) or supplied velocities", "predicate": "", "fields": {"kinds": sorted(kinds), "engine": "surface_hopping", "user": bool(inp.get("user"))}}
+
+
+PROBES = {"sh_start": probe_sh_start, "initial": probe_initial, "seeding": probe_seeding, "user_velocities": probe_user_velocities}
 
 
 def corr_initvel(ctx: Ctx, drv):
@@ -254,6 +322,12 @@ def gen_cases(ctx: Ctx):
     for eng in (["basic", "langevin", "xl"] if ctx.thorough else ["basic", "langevin"]):
         cases.append(("seeding", {"names": ["h2o"], "seed": int(rng.integers(1, 10**5)), "engine": eng, "burn": int(rng.integers(1, 5000))}))
     cases.append(("seeding", {"names": ["h2o"], "seed": int(rng.integers(1, 10**5)), "engine": "langevin", "burn": int(rng.integers(1, 5000)), "preset": int(rng.integers(1, 99))}))
+    # the surface-hopping engine has its own start-up (couplings from finite differences in time before the first step)
+    cases.append(("sh_start", {"names": ["h2o"], "temp": float(rng.choice([150.0, 300.0, 600.0])), "seed": int(rng.integers(1, 999))}))
+    cases.append(("sh_start", {"names": ["h2o"], "temp": 300.0, "seed": int(rng.integers(1, 999)), "user": True}))
+    if ctx.thorough:
+        cases.append(("sh_start", {"names": ["ch2o"], "temp": 300.0, "seed": int(rng.integers(1, 999)), "damp": 20.0}))
+        cases.append(("sh_start", {"names": ["h2o", "h2o"], "temp": 400.0, "seed": int(rng.integers(1, 999)), "user": True, "damp": 20.0}))
     cases.append(("user_velocities", {"names": ["h2o"], "mode": "generic", "seed": 1}))
     cases.append(("user_velocities", {"names": ["h2o"], "mode": "translation", "seed": 2}))
     cases.append(("user_velocities", {"names": ["h2o"], "mode": "zero_momentum", "seed": 3}))
